@@ -11,6 +11,8 @@ With the honest hint (`none` = what `Fq::sqrt_ratio_zeta(&ONE, &den)` returns ou
 * `add_gadget`, `sub_gadget`, `neg_gadget`, `double_gadget`, `select_gadget`, `scalarMul_gadget` (every bit list),
   `isEq_gadget`: the arithmetic / comparison gadgets compute the group law / decide the coset relation on the values
   their variables carry;
+* `allocWitness_complete`: witness allocation of any representative of any group element is satisfied and hands back a
+  representative of the same element;
 * `lazy_*`: forcing the encoding / the element of a lazily evaluated variable, in any order and any number of times,
   emits at most one gadget and never changes a value once it is defined.
 They use `sarkar_contract` (the table-driven routine meets its contract, C09.ark_contract); no premise is left.
@@ -169,6 +171,85 @@ theorem decompress_complete_iff {s : ℕ} (hs : s < q) :
     cases f with
     | false => simp [hn']
     | true => simp [hn']
+
+/-! ### witness allocation -/
+
+theorem decodeField_shape {sr : SR} {s : ℕ} {c : Ext} (h : decodeField sr s = .ok c) : c.Z = 1 := by
+  unfold decodeField at h
+  split at h
+  · exact absurd h (by simp)
+  · simp only [] at h
+    split at h
+    · exact absurd h (by simp)
+    · split at h
+      · exact absurd h (by simp)
+      · injection h with h; subst h; rfl
+
+theorem onCurve_iff (x y : ℕ) : C17.onCurve x y = true ↔ OnCurve params.d (x : Fq) (y : Fq) := by
+  have hd : params.d = (cD : Fq) := rfl
+  unfold C17.onCurve OnCurve
+  rw [beq_iff_eq, hd]
+  constructor
+  · intro h
+    have := congrArg (Nat.cast : ℕ → Fq) h
+    simp only [cast_fadd, cast_fmul, cast_fsq, Nat.cast_one] at this
+    have hA : ((C17.coeffA : ℕ) : Fq) = -1 := cast_cA
+    have hD : ((C17.coeffD : ℕ) : Fq) = (cD : Fq) := rfl
+    rw [hA, hD] at this
+    linear_combination this
+  · intro h
+    apply eq_of_cast_eq (fadd_lt q_pos _ _) (fadd_lt q_pos _ _)
+    simp only [cast_fadd, cast_fmul, cast_fsq, Nat.cast_one]
+    have hA : ((C17.coeffA : ℕ) : Fq) = -1 := cast_cA
+    have hD : ((C17.coeffD : ℕ) : Fq) = (cD : Fq) := rfl
+    rw [hA, hD]
+    linear_combination h
+
+/-- witness allocation in terms of the encoding it witnesses and of what the decode gadget returns for it (stated for
+opaque values so that the kernel never has to look inside the gadgets) -/
+theorem allocWitness_of {px py : ℕ} {h : R1cs.Hint} {s : ℕ} {sat : Bool} {x y : ℕ}
+    (hfe : ((Ext.ofAffine (px, py)).encodeField sqrtRatioArk).getD 0 = s) (hd : R1cs.decompress s h = (sat, x, y)) :
+    R1cs.allocWitness px py h = (C17.onCurve px py && sat && (fmul q x py == fmul q px y), x, y) := by
+  unfold R1cs.allocWitness
+  simp only []
+  rw [hfe, hd]
+
+/-- **witness allocation is complete**: for every affine representative of every group element, honest synthesis is
+satisfied and the variable handed back carries a representative of the same element (the decoded one) -/
+theorem allocWitness_complete {px py : ℕ} {P : E} (hr : ERepr (Ext.ofAffine (px, py)) P) (he : Point.IsEven P) :
+    ∃ P', (R1cs.allocWitness px py none).1 = true ∧ AffRep (R1cs.allocWitness px py none).2 P' ∧ Point.Coset P P' := by
+  obtain ⟨bytes, c', pt', henc, hdec, hr', hcos, heq⟩ := C01.decode_encode sarkar_contract hr he
+  obtain ⟨s, hs, hlt, _⟩ := encodeField_spec sarkar_contract hr he
+  have hbytes : bytes = toLeBytes s 32 := by
+    unfold Ext.encode at henc
+    rw [hs] at henc
+    injection henc with henc
+    exact henc.symm
+  have h253 : s < 256 ^ 32 := lt_trans hlt (lt_trans q_lt_two_pow_253 (by norm_num))
+  have hle : leBytes (toLeBytes s 32) = s := leBytes_toLeBytes s 32 h253
+  have hdf : decodeField sqrtRatioArk s = .ok c' := by
+    rw [hbytes, C02.decode32_eq, hle, if_pos hlt] at hdec
+    exact hdec
+  obtain ⟨hsat, hout⟩ := decompress_complete_iff hlt
+  have hZ := decodeField_shape hdf
+  have hon : C17.onCurve px py = true := by
+    rw [onCurve_iff]
+    have hx := hr.hx; have hy := hr.hy
+    simp only [Ext.ofAffine, Nat.cast_one, mul_one] at hx hy
+    rw [hx, hy]; exact P.on
+  have hd : R1cs.decompress s none = (true, c'.X, c'.Y) := Prod.ext (hsat.mpr ⟨c', hdf⟩) (hout c' hdf)
+  have hfe : ((Ext.ofAffine (px, py)).encodeField sqrtRatioArk).getD 0 = s := by rw [hs]; rfl
+  rw [allocWitness_of hfe hd]
+  refine ⟨pt', ?_, ?_, hcos⟩
+  · simp only [hon, Bool.true_and]
+    unfold Ext.eq at heq
+    simp only [Ext.ofAffine] at heq
+    rw [beq_iff_eq] at heq ⊢
+    unfold fmul at heq ⊢
+    rw [Nat.mul_comm c'.X py, ← heq, Nat.mul_comm]
+  · have hx := hr'.hx; have hy := hr'.hy
+    rw [hZ, Nat.cast_one, mul_one] at hx hy
+    exact ⟨hx, hy⟩
 
 /-! ### the lazily evaluated variable -/
 
